@@ -7,6 +7,7 @@ a deviation bound (preemptions, lock time-outs, crashes), iterated 0, 1, 2, (3).
 """
 import hashlib
 import io
+import itertools
 import json
 import os
 import shutil
@@ -17,7 +18,7 @@ ID = "C19"
 LEVEL = "model_checking"
 RULE = ("harnesses: H0 every leftover cache directory (installed files x stale temp copy x lock file x time stamp) then a "
         "load of each version; H1 two populators || one loader on an empty cache; H2 one populator crashed at every point, then loader, "
-        "populator, loader; H3 populator || populator; H4 two CacheLock holders (time-out allowed to fire), H4c three holders; H8 slow lock holder || loader (the loader's lock attempts may time out, empty and half-filled cache); H5c two time-recording refreshers at one clock time; H5 refresh interval "
+        "populator, loader; H3 populator || populator; H4 two CacheLock holders (time-out allowed to fire; H4m: one of them records the refresh time), H4c three holders; H8 slow lock holder || loader (the loader's lock attempts may time out, empty and half-filled cache); H9 sequential refresh histories with the cached file torn / replaced / deleted in between; H5c two time-recording refreshers at one clock time; H5 refresh interval "
         "x clock answers x torn time-stamp files; H6 network refresh (fake server) crashed at every point || loader; H7 network refresh whose download is cut after k bytes (real url_to_file over a fake response).  Every "
         "execution with <= B deviations (preemption of a runnable process, lock time-out, crash) is run on the real functions; "
         "state = (directory contents, lock holder, per-process program point) reached after each step; transition = one "
@@ -528,15 +529,16 @@ def h2(rec, world, shard, nshards, versions):
     return sched.explore(mk, 1, chk, shard_filter(shard, nshards))
 
 
-def h4(rec, world, shard, nshards, bound):
-    """Two holders of the cache lock on one directory: never overlap; a time-out gives the documented error."""
+def h4(rec, world, shard, nshards, bound, kinds=(False, False)):
+    """Two holders of the cache lock on one directory: never overlap; a time-out gives the documented error.  kinds: whether
+    holder A / B records the refresh time (a refresher beside a holder that only copies installed files)."""
     state = {"inside": 0, "overlap": False, "events": []}
 
     def holder(tag):
         def body():
             from hed.schema.hed_cache_lock import CacheLock, CacheException
             try:
-                with CacheLock(WORLD.cache, write_time=False):
+                with CacheLock(WORLD.cache, write_time=kinds[0 if tag == "A" else 1]):
                     state["inside"] += 1
                     if state["inside"] > 1:
                         state["overlap"] = True
@@ -896,6 +898,67 @@ def h6(rec, world, shard, nshards, bound, version):
         world.extra_ok = {}
 
 
+def h9(rec, world, version):
+    """Histories of refreshes in one process: between two refreshes (each more than the refresh interval after the last) the
+    cached file is left alone, torn, replaced by an older copy or deleted; after every refresh the cache holds the served
+    content and the version loads."""
+    from hed.schema.hed_cache_lock import CACHE_TIME_THRESHOLD
+    name = version_file(version)
+    new = world.bytes[name]
+    old = new + b"\n<!-- older cached copy -->\n"
+    contents = {"served": new, "older": old, "torn": new[:len(new) // 2], "missing": None}
+    base = "https://fake/standard_schema"
+    lib = "https://fake/library_schemas"
+    gitsha = hashlib.sha1(f"blob {len(new)}\0".encode() + new).hexdigest()
+    server = {("listing", base + "/hedxml"): [{"type": "file", "name": name, "sha": gitsha,
+                                               "download_url": "https://fake/dl/" + name}],
+              ("listing", lib): [],
+              ("file", "https://fake/dl/" + name): new}
+    try:
+        for start in contents:
+            for changes in itertools.chain(itertools.product(contents, repeat=1), itertools.product(contents, repeat=2)):
+                world.reset({name: contents[start]} if contents[start] is not None else {})
+                world.server = dict(server)
+                world.extra_ok = {name: [old]}
+                now = 1.8e9
+                rec.n("evaluations")
+                rec.n("distinct_nontrivial")
+                rec.state(("H9", start, changes))
+                where = {"harness": "H9", "cached_file_at_start": start, "changes_between_refreshes": list(changes)}
+                for step, change in enumerate((None,) + changes):
+                    if change is not None:
+                        path = os.path.join(world.cache, name)
+                        if contents[change] is None:
+                            if os.path.exists(path):
+                                os.remove(path)
+                        else:
+                            with open(path, "wb") as f:
+                                f.write(contents[change])
+                    now += 2 * CACHE_TIME_THRESHOLD
+                    world.clock["default"] = now
+                    rec.n("transitions")
+                    try:
+                        r = world.hc.cache_xml_versions(hed_base_urls=base, hed_library_urls=lib, cache_folder=world.cache)
+                    except BaseException as e:
+                        rec.violation("C19:H9:refresh-raises:" + type(e).__name__, step=step, error=repr(e)[:200], **where)
+                        break
+                    have = world.cache_listing().get(name)
+                    if r == -1 or have != new:
+                        rec.violation("C19:H9:refresh-leaves-a-file-that-is-not-the-served-content", step=step, result=r,
+                                      file=("missing" if have is None else "older" if have == old else
+                                            "torn" if have == contents["torn"] else "other"), **where)
+                        break
+                    world.hio._load_schema_version.cache_clear()
+                    res = make_loader(version)()
+                    if res[2] != "ok":
+                        rec.violation("C19:H9:load-after-refresh-failed:" + res[2], step=step, detail=res[3], **where)
+                        break
+                rec.outcome("H9:history")
+    finally:
+        world.server = {}
+        world.extra_ok = {}
+
+
 class CutResponse:
     """What urlopen gives back when the connection is lost after `cut` bytes of a body announced with Content-Length:
     read() raises IncompleteRead, read(n) just comes back short and then empty (http.client semantics)."""
@@ -995,6 +1058,7 @@ def worker(rec, shard, nshards, scratch, files, bounds, thorough, seed):
                      ("H2", lambda: h2(rec, WORLD, shard, nshards, versions)),
                      ("H3", lambda: h3(rec, WORLD, shard, nshards, bounds["H3"], versions)),
                      ("H4", lambda: h4(rec, WORLD, shard, nshards, bounds["H4"])),
+                     ("H4m", lambda: h4(rec, WORLD, shard, nshards, bounds["H4"], kinds=(True, False))),
                      ("H4c", lambda: h4c(rec, WORLD, shard, nshards, bounds["H4c"])),
                      ("H5c", lambda: h5c(rec, WORLD, shard, nshards, bounds["H4"])),
                      ("H8", lambda: h8(rec, WORLD, shard, nshards, bounds["H8"], versions)),
@@ -1008,6 +1072,8 @@ def worker(rec, shard, nshards, scratch, files, bounds, thorough, seed):
         h0(rec, WORLD, versions)
     if shard == 2 % nshards:
         h7(rec, WORLD, versions[0])
+    if shard == 3 % nshards:
+        h9(rec, WORLD, versions[0])
     shutil.rmtree(WORLD.root, ignore_errors=True)
 
 
